@@ -1468,6 +1468,12 @@ impl<'a> Sim<'a> {
 
     /// End-of-run checks.
     pub fn finish(&mut self) -> Result<(), Stop> {
+        if self.stats.api_calls >= 1000 {
+            self.stats.probe("process_with_1000_or_more_api_calls");
+        }
+        if self.keys.len() >= 256 {
+            self.stats.probe("process_with_256_or_more_distinct_waveform_keys");
+        }
         if self.prop == Prop::C02 {
             for g in 0..self.gens.len() {
                 if let Some(gs) = self.gens[g].as_ref() {
